@@ -76,3 +76,8 @@ PROPS['C06'] = dict(
     unit_modules=[], driver_modules=['drivers.c06'], level='other',
     level_text='tbd', level_note='tbd', assumptions=COMMON_ASSUMPTIONS, driver_budget_s=200,
 )
+
+PROPS['C10'] = dict(
+    unit_modules=[], driver_modules=['drivers.c10'], level='other',
+    level_text='tbd', level_note='tbd', assumptions=COMMON_ASSUMPTIONS,
+)
